@@ -22,20 +22,57 @@ impl Api {
     }
 }
 
+pub enum Fr<T: Sc> {
+    S(FitResult<BM<T>, false>),
+    M(FitResult<BM<T>, true>),
+}
+
+/// Result of a fit; the accessors call the real `FitResult` API lazily so that the
+/// harness itself makes no model calls the caller did not ask for.
 pub struct FitOut<T: Sc> {
+    /// whether `fit` returned Ok
     pub ok: bool,
     pub termination: String,
     pub n_eval: usize,
     pub objective: T,
-    pub problem: Box<dyn Prob<T>>,
     pub was_successful: bool,
+    pub fr: Fr<T>,
+}
+
+impl<T: Sc> FitOut<T> {
+    pub fn problem(&self) -> &dyn Prob<T> {
+        match &self.fr {
+            Fr::S(f) => &f.problem,
+            Fr::M(f) => &f.problem,
+        }
+    }
+    pub fn into_problem(self) -> Box<dyn Prob<T>> {
+        match self.fr {
+            Fr::S(f) => Box::new(f.problem),
+            Fr::M(f) => Box::new(f.problem),
+        }
+    }
     /// FitResult::nonlinear_parameters()
-    pub alpha: DVector<T>,
+    pub fn alpha(&self) -> DVector<T> {
+        match &self.fr {
+            Fr::S(f) => f.nonlinear_parameters(),
+            Fr::M(f) => f.nonlinear_parameters(),
+        }
+    }
     /// FitResult::linear_coefficients() as M x S
-    pub coef: Option<DMatrix<T>>,
-    /// FitResult::best_fit() as N x S plus whether the API returned a vector
-    pub best_fit: Option<DMatrix<T>>,
-    pub best_fit_is_vector: bool,
+    pub fn coef(&self) -> Option<DMatrix<T>> {
+        match &self.fr {
+            Fr::S(f) => f.linear_coefficients().map(|c| DMatrix::from_column_slice(c.nrows(), 1, c.clone_owned().as_slice())),
+            Fr::M(f) => f.linear_coefficients().map(|c| c.clone_owned()),
+        }
+    }
+    /// FitResult::best_fit() as N x S, and whether the API returned a vector
+    pub fn best_fit(&self) -> (Option<DMatrix<T>>, bool) {
+        match &self.fr {
+            Fr::S(f) => (f.best_fit().map(|v| DMatrix::from_column_slice(v.nrows(), 1, v.as_slice())), true),
+            Fr::M(f) => (f.best_fit(), false),
+        }
+    }
 }
 
 pub trait Prob<T: Sc>: Send {
@@ -54,7 +91,7 @@ pub trait Prob<T: Sc>: Send {
     fn api(&self) -> Api;
     fn into_sequential(self: Box<Self>) -> Box<dyn Prob<T>>;
     fn fit(self: Box<Self>, solver: LevenbergMarquardt<T>) -> FitOut<T>;
-    /// only for Api::Single; Err(self-fit) when statistics are not available
+    /// only for Api::Single; statistics are None when fit_with_statistics returned Err
     fn fit_stats(self: Box<Self>, solver: LevenbergMarquardt<T>) -> (FitOut<T>, Option<FitStatistics<BM<T>>>);
 }
 
@@ -63,19 +100,13 @@ fn fitout_single<T: Sc>(r: Result<FitResult<BM<T>, false>, FitResult<BM<T>, fals
         Ok(f) => (true, f),
         Err(f) => (false, f),
     };
-    let coef = fr.linear_coefficients().map(|c| DMatrix::from_column_slice(c.nrows(), 1, c.clone_owned().as_slice()));
-    let bf = fr.best_fit().map(|v| DMatrix::from_column_slice(v.nrows(), 1, v.as_slice()));
     FitOut {
         ok,
         termination: format!("{:?}", fr.minimization_report.termination),
         n_eval: fr.minimization_report.number_of_evaluations,
         objective: fr.minimization_report.objective_function,
         was_successful: fr.was_successful(),
-        alpha: fr.nonlinear_parameters(),
-        coef,
-        best_fit: bf,
-        best_fit_is_vector: true,
-        problem: Box::new(fr.problem),
+        fr: Fr::S(fr),
     }
 }
 fn fitout_mrhs<T: Sc>(r: Result<FitResult<BM<T>, true>, FitResult<BM<T>, true>>) -> FitOut<T> {
@@ -83,19 +114,13 @@ fn fitout_mrhs<T: Sc>(r: Result<FitResult<BM<T>, true>, FitResult<BM<T>, true>>)
         Ok(f) => (true, f),
         Err(f) => (false, f),
     };
-    let coef = fr.linear_coefficients().map(|c| c.clone_owned());
-    let bf = fr.best_fit();
     FitOut {
         ok,
         termination: format!("{:?}", fr.minimization_report.termination),
         n_eval: fr.minimization_report.number_of_evaluations,
         objective: fr.minimization_report.objective_function,
         was_successful: fr.was_successful(),
-        alpha: fr.nonlinear_parameters(),
-        coef,
-        best_fit: bf,
-        best_fit_is_vector: false,
-        problem: Box::new(fr.problem),
+        fr: Fr::M(fr),
     }
 }
 
